@@ -127,10 +127,11 @@ Section Digest.
     eqbZs (a_algorithm a) s_MD5
     && (truthy (a_username a) && truthy (a_realm a) && truthy (a_nonce a)
         && truthy (a_uri a) && truthy (a_response a))
-    && (if truthy (a_qop a)
-        then (opt_eqb (a_qop a) (Some s_auth) || opt_eqb (a_qop a) (Some s_auth_int))
-             && (truthy (a_cnonce a) && truthy (a_nc a))
-        else negb (truthy (a_cnonce a) || truthy (a_nc a))).
+    && (match a_qop a with
+        | Some _ => (opt_eqb (a_qop a) (Some s_auth) || opt_eqb (a_qop a) (Some s_auth_int))
+                    && (truthy (a_cnonce a) && truthy (a_nc a))
+        | None => negb (truthy (a_cnonce a) || truthy (a_nc a))
+        end).
 
   (** "the header parses": the scheme is Digest, the value is Latin-1, it has a
       parameter part that urllib's parser accepts, and the fields pass the checks *)
@@ -160,7 +161,7 @@ Section Digest.
     destruct (split1 32 decoded) as [[scheme params]|] eqn:Es; cbn [fst ret];
       [|split; [discriminate | intros [_ [_ [s' [p' [kv [E _]]]]]]; discriminate]].
     rewrite fst_bind. cbn [fst emit].
-    destruct (parse_params params) as [kv| |] eqn:Ep; cbn [fst ret];
+    destruct (parse_params params) as [kv| | |] eqn:Ep; cbn [fst ret];
       try (split; [discriminate | intros [_ [_ [s' [p' [kv' [E1 [E2 _]]]]]]]; inversion E1; subst; congruence]).
     fold (fields_of m kv). set (a0 := fields_of m kv).
     unfold fields_ok.
@@ -173,8 +174,8 @@ Section Digest.
         destruct (eqbZs (a_algorithm a0) s_MD5); cbn [negb andb] in *; [|discriminate].
         destruct (truthy (a_username a0) && truthy (a_realm a0) && truthy (a_nonce a0)
                   && truthy (a_uri a0) && truthy (a_response a0)); cbn [negb andb] in *; [|discriminate].
-        destruct (truthy (a_qop a0)).
-        - destruct (opt_eqb (a_qop a0) (Some s_auth) || opt_eqb (a_qop a0) (Some s_auth_int));
+        destruct (a_qop a0) as [q0|].
+        - destruct (opt_eqb (Some q0) (Some s_auth) || opt_eqb (Some q0) (Some s_auth_int));
             cbn [negb andb] in *; [|discriminate].
           destruct (truthy (a_cnonce a0) && truthy (a_nc a0)); cbn [negb] in *; [|discriminate].
           inversion E. split; reflexivity.
@@ -189,7 +190,7 @@ Section Digest.
       rewrite orb_false_r.
       apply andb_true_iff in E4. destruct E4 as [E4 E5]. apply andb_true_iff in E4. destruct E4 as [E4 E6].
       rewrite E4, E6. cbn [negb].
-      destruct (truthy (a_qop a0)).
+      destruct (a_qop a0) as [q0|].
       + apply andb_true_iff in E5. destruct E5 as [E5 E7]. rewrite E5, E7. reflexivity.
       + apply negb_true_iff in E5. rewrite E5. reflexivity.
   Qed.
@@ -209,6 +210,8 @@ Section Digest.
        destruct (parse_params pa); cbn [fst ret]; try (intro E; inversion E; tauto);
        repeat match goal with
               | |- context [if ?b then _ else _] => destruct b; cbn [fst ret]
+              | |- context [match assoc k_qop ?kv with Some _ => _ | None => _ end] =>
+                destruct (assoc k_qop kv); cbn [fst ret a_qop]
               end; intro E; inversion E; tauto).
   Qed.
 
@@ -270,7 +273,7 @@ Section Digest.
   Lemma fields_ok_inv a : fields_ok a = true ->
     a_algorithm a = s_MD5 /\ truthy (a_username a) = true /\ truthy (a_nonce a) = true
     /\ truthy (a_uri a) = true /\ truthy (a_response a) = true
-    /\ (truthy (a_qop a) = true ->
+    /\ (a_qop a <> None ->
         (a_qop a = Some s_auth \/ a_qop a = Some s_auth_int)
         /\ truthy (a_cnonce a) = true /\ truthy (a_nc a) = true).
   Proof.
@@ -278,42 +281,38 @@ Section Digest.
     apply andb_true_iff in E. destruct E as [E E3]. apply andb_true_iff in E. destruct E as [E1 E2].
     apply eqbZs_true_iff in E1.
     repeat (apply andb_true_iff in E2; destruct E2 as [E2 ?]).
-    repeat split; try assumption.
-    - rewrite H4 in E3. apply andb_true_iff in E3. destruct E3 as [E3 _].
-      apply orb_true_iff in E3. destruct E3 as [E3|E3]; apply opt_eqb_true_iff in E3; tauto.
-    - rewrite H4 in E3. apply andb_true_iff in E3. destruct E3 as [_ E3].
-      apply andb_true_iff in E3. tauto.
-    - rewrite H4 in E3. apply andb_true_iff in E3. destruct E3 as [_ E3].
-      apply andb_true_iff in E3. tauto.
+    repeat split; try assumption;
+      (destruct (a_qop a) as [q|] eqn:Eq; [|congruence];
+       apply andb_true_iff in E3; destruct E3 as [E3 E4]; apply andb_true_iff in E4).
+    - apply orb_true_iff in E3. destruct E3 as [E3|E3]; apply opt_eqb_true_iff in E3; tauto.
+    - tauto.
+    - tauto.
   Qed.
 
   (** request_digest on a checked header: a digest exactly for qop absent/auth,
-      and then it is the RFC value; TypeError for auth-int; ValueError for qop="" *)
+      and then it is the RFC value; TypeError for auth-int *)
   Lemma request_digest_fst a ha1 : fields_ok a = true ->
     (qop_none_or_auth a /\ fst (request_digest H a ha1) = inl (rfc_response a ha1))
-    \/ (a_qop a = Some s_auth_int /\ fst (request_digest H a ha1) = inr (E500 1))
-    \/ (a_qop a = Some [] /\ fst (request_digest H a ha1) = inr (E500 2)).
+    \/ (a_qop a = Some s_auth_int /\ fst (request_digest H a ha1) = inr (E500 1)).
   Proof.
     intro OK. destruct (fields_ok_inv a OK) as [Ealg [Tu [Tn [Turi [Tr Tq]]]]].
     unfold request_digest, HA2, rfc_response, rfc_HA1, rfc_HA2, req_string, a2_string, qop_none_or_auth.
     rewrite Ealg. replace (eqbZs s_MD5 s_MD5_sess) with false by reflexivity.
     rewrite (truthy_fmt _ Tn), (truthy_fmt _ Turi).
     destruct (a_qop a) as [q|] eqn:Eq.
-    - destruct q as [|q0 qr] eqn:Eqq.
-      + right. right. split; [reflexivity|]. rewrite fst_bind. reflexivity.
-      + assert (Tq' : truthy (Some (q0 :: qr)) = true) by reflexivity.
-        destruct (Tq Tq') as [[Ea|Ea] [Tc Tnc]].
-        * assert (Ea' : q0 :: qr = s_auth) by congruence. rewrite Ea' in *.
-          left. split; [right; reflexivity|].
-          replace (eqbZs s_auth s_auth) with true by reflexivity.
-          repeat (rewrite fst_bind; cbn [fst emit ret]).
-          replace (truthy (Some s_auth)) with true by reflexivity.
-          rewrite (truthy_fmt _ Tc), (truthy_fmt _ Tnc). reflexivity.
-        * assert (Ea' : q0 :: qr = s_auth_int) by congruence. rewrite Ea' in *.
-          right. left. split; [reflexivity|].
-          replace (eqbZs s_auth_int s_auth) with false by reflexivity.
-          replace (opt_eqb (Some s_auth_int) (Some s_auth_int)) with true by reflexivity.
-          rewrite fst_bind. reflexivity.
+    - assert (Tq' : Some q <> None) by discriminate.
+      destruct (Tq Tq') as [[Ea|Ea] [Tc Tnc]].
+      + assert (Ea' : q = s_auth) by congruence. rewrite Ea' in *.
+        left. split; [right; reflexivity|].
+        replace (eqbZs s_auth s_auth) with true by reflexivity.
+        repeat (rewrite fst_bind; cbn [fst emit ret]).
+        replace (truthy (Some s_auth)) with true by reflexivity.
+        rewrite (truthy_fmt _ Tc), (truthy_fmt _ Tnc). reflexivity.
+      + assert (Ea' : q = s_auth_int) by congruence. rewrite Ea' in *.
+        right. split; [reflexivity|].
+        replace (eqbZs s_auth_int s_auth) with false by reflexivity.
+        replace (opt_eqb (Some s_auth_int) (Some s_auth_int)) with true by reflexivity.
+        rewrite fst_bind. reflexivity.
     - left. split; [left; reflexivity|].
       repeat (rewrite fst_bind; cbn [fst emit ret truthy]). reflexivity.
   Qed.
@@ -356,6 +355,7 @@ Section Digest.
       match get_ha1 (c_realm c) (oval (a_username a)) with
       | None => R401 (digest_challenge c now false)
       | Some ha1 =>
+        if opt_eqb (a_qop a) (Some s_auth_int) then R400 else
         match fst (request_digest H a ha1) with
         | inr e => of_exn e
         | inl digest =>
@@ -380,6 +380,7 @@ Section Digest.
     destruct (negb (fst (validate_nonce H a (c_realm c) (c_key c)))); [apply respond_401_fst|].
     rewrite fst_bind. cbn [fst emit].
     destruct (get_ha1 (c_realm c) (oval (a_username a))) as [ha1|]; [|apply respond_401_fst].
+    destruct (opt_eqb (a_qop a) (Some s_auth_int)); [reflexivity|].
     rewrite fst_bind.
     destruct (fst (request_digest H a ha1)) as [d|e]; [|reflexivity].
     destruct (negb (opt_eqb (Some d) (a_response a))); [apply respond_401_fst|].
@@ -411,11 +412,12 @@ Section Digest.
     (* 3: anything else that is answered 401 *)
     \/ ((forall a ts login, ~ credentials_verify c header m a ts login)
         /\ digest_pure c header m now = R401 (digest_challenge c now false))
-    (* 4: unparseable *)
-    \/ ((forall a, ~ header_parses (oval header) m a) /\ digest_pure c header m now = R400)
-    (* 5: exceptions nothing translates; timestamp outside the model *)
-    \/ ((forall a ts login, ~ (credentials_verify c header m a ts login /\ nonce_fresh ts now))
-        /\ (exists w, (w = 1 \/ w = 2 \/ w = 3) /\ digest_pure c header m now = R500 w))
+    (* 4: unparseable, or qop=auth-int from a known user over a genuine nonce *)
+    \/ (((forall a, ~ header_parses (oval header) m a)
+         \/ (exists a, header_parses (oval header) m a /\ a_qop a = Some s_auth_int))
+        /\ digest_pure c header m now = R400)
+    (* 5: an exception of urllib's parser that nothing translates; timestamp outside the model *)
+    \/ ((forall a, ~ header_parses (oval header) m a) /\ digest_pure c header m now = R500 3)
     \/ ((forall a ts login, ~ (credentials_verify c header m a ts login /\ nonce_fresh ts now))
         /\ digest_pure c header m now = Unsupported 1).
   Proof.
@@ -429,10 +431,8 @@ Section Digest.
     2:{ assert (NP : forall a, ~ header_parses h m a).
         { intros a P. apply parse_header_inl in P. congruence. }
         destruct (parse_header_inr _ _ _ Ep) as [E|E]; subst e; cbn [of_exn].
-        - right. right. right. left. split; [assumption | reflexivity].
-        - right. right. right. right. left. split.
-          + intros a ts login [[h' [ha1 [Eh [P _]]]] _]. inversion Eh; subst. exact (NP a P).
-          + exists 3. split; [tauto | reflexivity]. }
+        - right. right. right. left. split; [left; assumption | reflexivity].
+        - right. right. right. right. left. split; [assumption | reflexivity]. }
     pose proof (proj1 (parse_header_inl h m a) Ep) as P.
     assert (OK : fields_ok a = true) by (destruct P as [_ [_ [s [p [kv [_ [_ [_ X]]]]]]]]; exact X).
     destruct (fields_ok_inv a OK) as [Ealg [Tu [Tn [Turi [Tr Tq]]]]].
@@ -457,15 +457,11 @@ Section Digest.
     2:{ right. right. left. split; [|reflexivity].
         intros a' ts' login' [h' [ha1 [Eh [P' [_ [Eu' [Eg _]]]]]]]. inversion Eh; subst h'.
         rewrite (UNIQ a' P') in *. congruence. }
-    destruct (request_digest_fst a ha1 OK) as [[Q Ed]|[[Q Ed]|[Q Ed]]]; rewrite Ed; cbn [of_exn].
-    2:{ right. right. right. right. left. split.
-        - intros a' ts' login' [[h' [ha1' [Eh [P' [_ [_ [_ [[Q'|Q'] _]]]]]]]] _]; inversion Eh; subst h';
-            rewrite (UNIQ a' P') in *; rewrite Q in Q'; discriminate.
-        - exists 1. split; [tauto | reflexivity]. }
-    2:{ right. right. right. right. left. split.
-        - intros a' ts' login' [[h' [ha1' [Eh [P' [_ [_ [_ [[Q'|Q'] _]]]]]]]] _]; inversion Eh; subst h';
-            rewrite (UNIQ a' P') in *; rewrite Q in Q'; discriminate.
-        - exists 2. split; [tauto | reflexivity]. }
+    destruct (opt_eqb (a_qop a) (Some s_auth_int)) eqn:Eai.
+    { apply opt_eqb_true_iff in Eai. right. right. right. left. split; [|reflexivity].
+      right. exists a. split; assumption. }
+    destruct (request_digest_fst a ha1 OK) as [[Q Ed]|[Q Ed]]; rewrite Ed; cbn [of_exn].
+    2:{ rewrite Q in Eai. discriminate. }
     destruct (opt_eqb (Some (rfc_response a ha1)) (a_response a)) eqn:Er; cbn [negb].
     2:{ right. right. left. split; [|reflexivity].
         intros a' ts' login' [h' [ha1' [Eh [P' [_ [Eu' [Eg [_ [_ R]]]]]]]]]. inversion Eh; subst h'.
